@@ -22,3 +22,23 @@ Theorem C09_input_format_irrelevant : forall o qs ts, Forall wf_udl qs -> Forall
   topranking_core o (map via_csv qs) (map via_csv ts) = topranking_core o qs ts.
 Proof. exact topranking_input_format_irrelevant. Qed.
 Print Assumptions C09_input_format_irrelevant.
+
+(* ---- the text of the CSV (repair D18): the sequence ID is the one cell that can hold arbitrary bytes ---- *)
+From GF Require Import CsvModel CsvLine.
+(* a line of any fields, each written through csv_field (= csvField of list.go), is split back into exactly those fields by
+   the reader (csv_parse models encoding/csv on one line and is compared with it on every run) *)
+Theorem C09_csv_line_roundtrip : forall fields : list (list N), fields <> [] ->
+  csv_parse (join [44] (map csv_field fields)) = Some fields.
+Proof. exact csv_roundtrip_line. Qed.
+Print Assumptions C09_csv_line_roundtrip.
+(* the row `updown list` writes for a sequence - whatever bytes its ID is made of - is read back as the line computed from the
+   sequence itself *)
+Theorem C09_list_row_roundtrip : forall ref q id, all_valid ref -> all_valid q ->
+  let u := udl_of_seq (map (enc false) ref) id (map (enc false) q) in
+  match csv_parse (udl_row u) with Some f => udl_of_fields f | None => None end = Some u.
+Proof. exact list_row_roundtrip. Qed.
+Print Assumptions C09_list_row_roundtrip.
+(* (the model's row is that text plus the line end) *)
+Theorem C09_row_text_is_udl_row : forall u, row_text (u_id u) (u_snps u) (u_ambs u) (u_ambc u) = udl_row u ++ [NL].
+Proof. exact row_text_is_udl_row. Qed.
+Print Assumptions C09_row_text_is_udl_row.
